@@ -67,9 +67,12 @@ def sigValid (sg : Sig) : Except Err Unit :=
 
 /-- `challenge_`: `int(TaggedHash("BIP0340/challenge", bytes(x_K) ‖ bytes(x_Q) ‖ msg)) mod n`,
     zero refused -/
-def challenge (msg : Bytes) (xQ xK : Int) : Except Err Int :=
+def challengeInt (msg : Bytes) (xQ xK : Int) : Int :=
   let t := prm.TH Gen.Schnorr.TAG_CHALLENGE (intBE prm.pSize xK ++ intBE prm.pSize xQ ++ msg)
-  let c := Gen.Schnorr.int_from_bits t prm.nlen % o.n
+  Gen.Schnorr.int_from_bits t prm.nlen % o.n
+
+def challenge (msg : Bytes) (xQ xK : Int) : Except Err Int :=
+  let c := challengeInt o prm msg xQ xK
   if c = 0 then .error .runtime else .ok c
 
 /-- the loop shared by `_bip340_nonce_` and `commit_nonce._tweak`:
